@@ -2,9 +2,21 @@
   C19 — Syncer.Head is fresh, monotone and never adopts an expired header.
 -/
 import GoHeader.Sync.Head
+import GoHeader.Sync.TailInit
 import GoHeader.Gen.Sync
 namespace GoHeader.C19
 open GoHeader GoHeader.SHead
+
+/-- concurrent callers on an EMPTY store (`Sync.TailInit`): they share the head request; as long as no fetch of the first
+    tail header fails, no caller fails, however their arrivals interleave with the fetch (the F35 repair: wait, do not skip) -/
+theorem c19_concurrent_init_all_ok (evs : List TailInit.Ev) (he : ∀ e ∈ evs, e ≠ .finish false) :
+    TailInit.AllOk (TailInit.run true {} evs) :=
+  TailInit.run_allok evs {} (by intro p hp; cases hp) he
+
+/-- before the repair the second caller found the store still empty and failed -/
+theorem c19_concurrent_init_before_repair :
+    (TailInit.run false {} [.arrive 0, .arrive 1, .finish true]).results = [(1, false), (0, true)] :=
+  TailInit.old_second_caller_fails
 
 /-- Tier A ties: the expiry / recency predicates regenerated from syncer_head.go are the model's -/
 theorem c19_tie_isExpired : Gen.isExpired = isExpired := rfl
